@@ -186,6 +186,7 @@ Print Assumptions head_decode_fixpoint.
 
 Theorem head_has_headLength : forall i, length (M_head_encode i) = head_headLength.
 Proof. exact head_encode_length. Qed.
+Print Assumptions head_has_headLength.
 
 Theorem head_decode_total :
   forall b : list N, M_head_decode b <> Panic /\ M_head_decode b <> OutOfFuel.
@@ -281,6 +282,7 @@ Print Assumptions fontbbox_union.
    come from malformed glyf data) *)
 Theorem fontbbox_union_improper_refuted : exists boxes, M_fontbbox boxes <> S_fontbbox boxes.
 Proof. exact fontbbox_improper_refuted. Qed.
+Print Assumptions fontbbox_union_improper_refuted.
 
 (* xAvgCharWidth: with s the sum and c the number of the positive advance
    widths, the value is 0 when c = 0 and otherwise (s + c/2) / c, which is the
@@ -367,6 +369,7 @@ Theorem version_round_half_up_refuted :
   exists v, version_milli_half_up v <> version_milli_string v /\
             version_of_milli (version_milli_half_up v) <> version_of_milli (version_milli_string v).
 Proof. exact version_round_ties_refuted. Qed.
+Print Assumptions version_round_half_up_refuted.
 
 (* ================================================================== *)
 (* translator tie                                                      *)
